@@ -308,6 +308,8 @@ def value_copied(fn: ast.FunctionDef, what: str) -> bool:
     for names, val in _bindings(fn):
         if _is_call_to(val, DEEPCOPY) and len(names) == 1:
             fresh.add(names[0])
+    ndarray_params = {a.arg for a in fn.args.args + fn.args.kwonlyargs
+                      if a.annotation is not None and ast.unparse(a.annotation) in ("np.ndarray", "numpy.ndarray")}
     ok = True
     for node in ast.walk(fn):
         if isinstance(node, ast.Call) and isinstance(node.func, ast.Attribute) and node.func.attr == "set":
@@ -315,10 +317,17 @@ def value_copied(fn: ast.FunctionDef, what: str) -> bool:
             v = kws.get("value", node.args[1] if len(node.args) > 1 else None)
             if v is None:
                 fail(node, f"{what}: .set without a value")
-            if _is_call_to(v, DEEPCOPY):
+            if _is_call_to(v, DEEPCOPY) or _is_call_to(v, {"np.array", "numpy.array", "np.copy", "numpy.copy"}):
                 continue
+            if isinstance(v, ast.Call) and isinstance(v.func, ast.Attribute) and v.func.attr == "copy" \
+                    and not v.args and isinstance(v.func.value, ast.Subscript) \
+                    and isinstance(v.func.value.slice, ast.Slice):
+                continue                      # <ndarray>[a:b].copy(): a new 1-D array of numbers
             if isinstance(v, (ast.Subscript, ast.Attribute, ast.Name)) and _root(v) in fresh:
                 continue
+            if isinstance(v, ast.Subscript) and isinstance(v.value, ast.Name) and v.value.id in ndarray_params \
+                    and isinstance(v.slice, (ast.Name, ast.Constant)):
+                continue                      # one element of a 1-D numpy array: an immutable numpy scalar
             ok = False
     return ok
 
@@ -439,6 +448,7 @@ FALLBACK_DATA = dict(
         "ModelFittingDataTree._apply_parameters")],
     effects=[(s, "Pure") for s in COPY_SITES + ("Observation._run_single_pipeline",
                                                 "dask._run_pipelines_array_to_datatree")],
-    value_copy=[(s, s == "ModelFittingDataTree.__init__") for s in COPY_SITES],
+    value_copy=[(s, s in ("create_new_processor", "update_processor", "ModelFittingDataTree.__init__"))
+                for s in COPY_SITES],
 )
 FALLBACK = render(FALLBACK_DATA)
